@@ -28,7 +28,7 @@ def run():
         return crate, out['rc'], tail
 
     with concurrent.futures.ThreadPoolExecutor(max_workers=3) as ex:
-        futs = [ex.submit(kani, 'searchlite-core', 'k9_selector_from_order'), ex.submit(kani, 'searchlite-ffi', 'k5_guard'), ex.submit(witness.build_driver)]
+        futs = [ex.submit(kani, 'searchlite-core', 'k9_selector_from_order'), ex.submit(kani, 'searchlite-ffi', 'k5_copy'), ex.submit(witness.build_driver)]
         for f in futs:
             r = f.result()
             if isinstance(r, tuple):
